@@ -74,4 +74,13 @@ CHECKS = {
         "note": "Trusted: reference model. Mesh vertex caches are reset to the same state before each compared call.",
         "technique": "bounded-exhaustive scene-lattice exploration of the real alternative GJK flavours vs constructed truth and certificate",
     },
+    "C14": {
+        "text": ("For every collider type with update_pose (x 2 sizes x Margin): all histories of 1..3 update_pose calls over 6 poses "
+                 "x {fresh array, item of a pose stack}, with the query battery (14 support queries, aabb, center, first_vertex, "
+                 "collider2origin, gjk distance + intersection against two partners) after every step or only at the end; every "
+                 "observation must equal that of a collider constructed directly at the last pose and no query may raise."),
+        "design_ref": "DESIGN.md 5 C14",
+        "note": "Differential oracle: fresh construction at the same pose (whose own correctness is C03/C04/C01).",
+        "technique": "exhaustive enumeration of update/query histories up to depth 3 on the real code with a fresh-object differential oracle",
+    },
 }
